@@ -92,6 +92,32 @@ pub fn write_scenarios(tier: Tier) -> Vec<WriteScn> {
     push(vec![b'\n'; 300], &mut v);
     push("💡".repeat(200).into_bytes(), &mut v);
     push(vec![0u8; 100], &mut v);
+    // multi-byte characters straddling every 2^k position of a long text in every possible split: an ASCII filler
+    // with one 2-, 3- or 4-byte character starting at boundary - j (j = 0 .. size of the character), plus two of
+    // them back to back; total length a little beyond the boundary and 4096
+    for boundary in [16usize, 64, 128, 256, 512, 1024, 2048, 3072, 4092] {
+        for ch in ["é", "€", "💡"] {
+            let cb = ch.as_bytes();
+            for j in 0..=cb.len() {
+                let start = boundary - j;
+                for total in [boundary + 8, 4096] {
+                    if start + 2 * cb.len() > total {
+                        continue;
+                    }
+                    let mut t: Vec<u8> = (0..start).map(|i| b'a' + (i % 26) as u8).collect();
+                    t.extend_from_slice(cb);
+                    if (j + boundary) % 2 == 0 {
+                        t.extend_from_slice(cb);
+                    }
+                    while t.len() < total {
+                        t.push(b'A' + (t.len() % 26) as u8);
+                    }
+                    let buf = if (boundary + j) % 2 == 0 { 0x480000 } else { 0xffd000 };
+                    v.push(WriteScn { text: t, buf, arg: 0xffe900, pc: dom::CODE_DRAM, ccr: 0x15 });
+                }
+            }
+        }
+    }
     // buffers ending exactly at the last byte of on-chip RAM and of DRAM
     for (end, n) in [(0xffff1fu32, 17usize), (0x5fffff, 33), (0xffff1f, 1), (0x5fffff, 4096)] {
         let text = pat(n);
